@@ -190,7 +190,10 @@ def split_worlds(lines, start_ev="World"):
     groups = []
     for ln in lines:
         if ln.get("ev") == start_ev:
-            groups.append((ln.get("index"), [ln]))
+            if groups and start_ev == "World" and groups[-1][0] is not None and groups[-1][0] == ln.get("index"):
+                groups[-1][1].append(ln)     # concurrent run: one World line per connection, same script world
+            else:
+                groups.append((ln.get("index"), [ln]))
         elif groups:
             groups[-1][1].append(ln)
     return groups
@@ -213,7 +216,10 @@ def run_script(ctx, worlds, tag):
     crash = None
     if p.returncode != 0:
         err = p.stderr
-        if "panic:" in err or "fatal error:" in err or p.returncode < 0:
+        if "WARNING: DATA RACE" in err:
+            i = err.find("WARNING: DATA RACE")
+            crash = "race: " + err[i:i + 3000]
+        elif "panic:" in err or "fatal error:" in err or p.returncode < 0:
             crash = err[-3000:]
         else:
             raise CheckError("harness failed (rc=%d): %s" % (p.returncode, err[-2000:]))
@@ -264,8 +270,11 @@ def run_and_validate(ctx, worlds, report, max_rejections=12, module="Ps3NetSrvTr
         _, crash2 = run_script(ctx, [worlds[bad]], "crash%d" % bad)
         if crash2 is not None:
             first = [l for l in crash2.splitlines() if l.startswith("panic:") or l.startswith("fatal error:")]
+            if crash2.startswith("race:"):
+                fr = [l.strip() for l in crash2.splitlines() if "ps3netsrv-go/" in l and "verifh" not in l]
+                first = ["data race: " + (fr[0] if fr else "?")]
             where = [l.strip() for l in crash2.splitlines() if "/repo/" in l or "ps3netsrv-go/" in l][:3]
-            report.violation("crash:" + (first[0][:120] if first else "process died"),
+            report.violation(("race:" if crash2.startswith("race:") else "crash:") + (first[0][:120] if first else "process died"),
                              "the process hosting the real server died while running world %s\n%s\n%s" % (
                                  worlds[bad]["name"], "\n".join(first[:2]), "\n".join(where)),
                              {"script.json": {ctx.key: [worlds[bad]]}, "stderr.txt": crash2})
